@@ -1031,11 +1031,23 @@ def replay_file(prop, path, items):
     with open(path) as f:
         data = json.load(f)
     cex = data.get("cex") or {}
+    if cex.get("mode") == "width":
+        from .props import width_probe
+
+        enga.init()
+        bad = [r for r in width_probe.run() if r["key"] == cex.get("key") and r["status"] == "violation"]
+        for r in bad:
+            print("replay %s: %s" % (r["key"], r["detail"]))
+        if bad:
+            print("VIOLATION property=%s replay=%s" % (prop, path))
+            return 1
+        print("does not reproduce on the current tree")
+        return 0
     if cex.get("mode") == "pinned":
         from .props import pinned_probe
 
         enga.init()
-        bad = [r for r in pinned_probe.run() + pinned_probe.run_adjoint() if r["key"] == cex.get("key") and r["status"] == "violation"]
+        bad = [r for r in pinned_probe.run() + pinned_probe.run_adjoint() + pinned_probe.run_nested() + pinned_probe.run_complex() if r["key"] == cex.get("key") and r["status"] == "violation"]
         for r in bad:
             print("replay %s: %s" % (r["key"], r["detail"]))
         if bad:
@@ -1359,6 +1371,44 @@ def _ids(a):
     return id(a)
 
 
+def _captured_arrays(fn, depth=0, seen=None):
+    """numeric ndarrays a configuration's function closes over (index arrays, weights, option arrays): caller-owned memory
+    just like the arguments"""
+    import types
+
+    seen = set() if seen is None else seen
+    out = []
+    if depth > 3 or id(fn) in seen:
+        return out
+    seen.add(id(fn))
+
+    def visit(v, d):
+        if isinstance(v, onp.ndarray):
+            if v.dtype != object and id(v) not in seen:
+                seen.add(id(v))
+                out.append(v)
+        elif isinstance(v, (tuple, list)) and d < 3:
+            for e in v:
+                visit(e, d + 1)
+        elif isinstance(v, dict) and d < 3:
+            for e in v.values():
+                visit(e, d + 1)
+        elif isinstance(v, types.FunctionType):
+            out.extend(_captured_arrays(v, depth + 1, seen))
+
+    if isinstance(fn, types.FunctionType):
+        for cell in fn.__closure__ or ():
+            try:
+                visit(cell.cell_contents, 0)
+            except ValueError:
+                pass
+        for dflt in (fn.__defaults__ or ()):
+            visit(dflt, 0)
+        for dflt in (fn.__kwdefaults__ or {}).values():
+            visit(dflt, 0)
+    return out
+
+
 def check_reuse(cfg, tier="quick"):
     from autograd import core
 
@@ -1480,7 +1530,14 @@ def check_reuse(cfg, tier="quick"):
     if out.status is None:
         out.status = "holds" if nok else "raises"
         if nok:
-            out.validated += 1 if _float_reuse_ok(cfg) else 0
+            if _float_reuse_ok(cfg):
+                out.validated += 1
+            elif _float_reuse_ok.why and not _float_reuse_ok(cfg) and _float_reuse_ok.why:
+                # the symbolic (object-dtype) run is clean but the SAME protocol on real float64 memory is not, twice in a
+                # row (dtype-specific fast paths, in-place normalisation of captured index arrays, ...): a violation,
+                # confirmed by the float64 run itself
+                out.status, out.detail = "violation", _float_reuse_ok.why
+                out.cex = {"env": {}, "mode": "reuse"}
     out.time = time.time() - t0
     return out
 
@@ -1492,6 +1549,9 @@ def _float_reuse_ok(cfg):
     rng = _rng(cfg)
     env = _Default({}, rng)
     anp = enga.anp
+    cap = _captured_arrays(cfg.call)
+    cap_copies = [onp.array(a, copy=True) for a in cap]
+    _float_reuse_ok.why = None
     try:
         fa = cfg.float_args(env)
         for a in fa:
@@ -1509,12 +1569,23 @@ def _float_reuse_ok(cfg):
             r1b = vjp(g1)
             vjp(g2)
             r3 = vjp(g1)
-        ok = onp.array_equal(onp.array(flat_float(r3)), r1c) and onp.array_equal(onp.array(flat_float(r1b)), r1c) and onp.array_equal(onp.array(flat_float(r1)), r1c) and onp.array_equal(onp.array(flat_float(g1)), g1c)
+        same = lambda a_, b_: a_.shape == b_.shape and bool(onp.all((a_ == b_) | (onp.isnan(a_) & onp.isnan(b_))))  # nan results (domain edges) repeat as nan
+        ok = same(onp.array(flat_float(r3)), r1c) and same(onp.array(flat_float(r1b)), r1c) and same(onp.array(flat_float(r1)), r1c) and same(onp.array(flat_float(g1)), g1c)
+        why = None if ok else "on float64 arrays a repeated call of the VJP function returned a different answer, or an earlier result / the cotangent changed"
         for a, c in zip(fa, copies):
-            if isinstance(a, onp.ndarray):
-                ok = ok and onp.array_equal(a, c)
+            if isinstance(a, onp.ndarray) and not onp.array_equal(a, c):
+                ok, why = False, "on float64 arrays an argument array was modified"
+        for a, c in zip(cap, cap_copies):
+            if a.shape != c.shape or a.dtype != c.dtype or a.tobytes() != c.tobytes():
+                ok, why = False, "an array the program closes over (index array / weights / option array, caller-owned) was modified by differentiation: %r -> %r" % (c.tolist(), a.tolist())
+                a[...] = c  # restore: the grid object is shared by later configurations
+        _float_reuse_ok.why = why
         return bool(ok)
     except Exception:
+        _float_reuse_ok.why = None
+        for a, c in zip(cap, cap_copies):
+            if a.shape == c.shape and a.tobytes() != c.tobytes():
+                a[...] = c
         return False
 
 
@@ -1843,6 +1914,10 @@ def check_operators(case, tier="quick"):
         attempt("jacobian(jacobian) == H", lambda: autograd.jacobian(autograd.jacobian(F))(x), H)
         if scalar_in or ish == ():
             attempt("deriv == J (scalar input)", lambda: autograd.deriv(F)(x), J)
+        else:
+            # deriv of an array argument is the forward-mode derivative along the all-ones tangent
+            attempt("deriv == J . ones (array input)", lambda: autograd.deriv(F)(x), T(J, onp.ones(ish), nin))
+            attempt("deriv of a linear map of an array == its matrix times ones", lambda: autograd.deriv(lambda x_: anp.sum(3.0 * x_) + 0.0 * anp.sum(F(x_)))(x), 3.0 * float(onp.prod(ish)))
         sc = lambda x_: anp.sum(F(x_) * g)
         gJ = T(g, J, no)
         Hs = T(g, H, no)
@@ -2457,6 +2532,18 @@ def check_vspace(case, tier="quick"):
             return acc, x
 
         eq("standard basis is complete: sum <x,e_i> e_i == x", complete)
+        # closure at the level of container TYPES (a list space must not hand out tuples, a dict space keeps its keys)
+        tt = _type_tree(x)
+        for on, fn in (("zeros()", lambda: vs.zeros()), ("ones()", lambda: vs.ones()), ("add(x, y)", lambda: vs.add(x, y)), ("mut_add(None, x)", lambda: vs.mut_add(None, x)),
+                       ("scalar_mul(x, a)", lambda: vs.scalar_mul(x, a)), ("covector(x)", lambda: vs.covector(x)), ("first basis vector", lambda: next(iter(vs.standard_basis()), x))):
+            try:
+                r_ = fn()
+                if _type_tree(r_) != tt:
+                    E.append(("%s has the container types of the value" % on, TypeError("container types %r, expected %r" % (_type_tree(r_), tt)), None))
+            except (Unsupported, Infeasible, PathLimit):
+                raise
+            except Exception as e:
+                E.append(("%s has the container types of the value" % on, e, None))
         return vs, zero, E
 
     def body():
@@ -2633,6 +2720,66 @@ def _shape_struct(a):
     return (st[0], tuple(_shape_struct(e) for e in a))
 
 
+def _type_tree(v):
+    """nested container TYPES of a value (leaves: 'leaf'): closure means every operation returns the value's own tree"""
+    if isinstance(v, dict):
+        return (type(v).__name__, tuple((k, _type_tree(v[k])) for k in sorted(v, key=repr)))
+    if isinstance(v, (tuple, list)):
+        return (type(v).__module__ + "." + type(v).__name__, tuple(_type_tree(e) for e in v))
+    return "leaf"
+
+
+def vspace_namedtuple_check():
+    """the value types numpy.linalg returns as named tuples (EigResult, EighResult, QRResult, SlogdetResult, SVDResult):
+    every constructive vector-space operation returns a value OF THE SAME container type and of the same space (closure),
+    and the axioms hold leaf-wise.  Concrete float64 / complex128 leaves from NumPy's own routines."""
+    from autograd.core import vspace
+
+    rs = onp.random.RandomState(SEED + 11)
+    A = rs.randn(3, 3)
+    Asym = A + A.T
+    makers = {"EigResult": lambda M: onp.linalg.eig(M), "EighResult": lambda M: onp.linalg.eigh(M + M.T), "QRResult": lambda M: onp.linalg.qr(M),
+              "SlogdetResult": lambda M: onp.linalg.slogdet(M), "SVDResult": lambda M: onp.linalg.svd(M)}
+    fails = []
+    n = 0
+    flat = lambda v: onp.concatenate([onp.ravel(onp.asarray(e)).astype(complex) for e in v]) if len(v) else onp.zeros(0)
+    for name, mk in makers.items():
+        try:
+            x, y = mk(A), mk(rs.randn(3, 3))
+            if type(x).__name__ != name:
+                continue  # this NumPy returns plain tuples
+            vs = vspace(x)
+            tt = _type_tree(x)
+            ops = {"zeros()": vs.zeros(), "ones()": vs.ones(), "randn()": vs.randn(), "add(x, y)": vs.add(x, y), "mut_add(None, x)": vs.mut_add(None, x),
+                   "mut_add(zeros(), x)": vs.mut_add(vs.zeros(), x), "scalar_mul(x, 2.5)": vs.scalar_mul(x, 2.5), "covector(x)": vs.covector(x), "first basis vector": next(iter(vs.standard_basis()))}
+            for on, r in ops.items():
+                n += 1
+                if _type_tree(r) != tt:
+                    fails.append("%s: %s is a %s" % (name, on, type(r).__name__))
+                elif not (vspace(r) == vs):
+                    fails.append("%s: vspace(%s) != vspace(x)" % (name, on))
+            chk = {"add(x, y) leaf-wise": (flat(vs.add(x, y)), flat(x) + flat(y)), "add(zeros(), x) == x": (flat(vs.add(vs.zeros(), x)), flat(x)),
+                   "scalar_mul": (flat(vs.scalar_mul(x, 2.5)), 2.5 * flat(x)), "covector involution": (flat(vs.covector(vs.covector(x))), flat(x))}
+            for cn, (a_, b_) in chk.items():
+                n += 1
+                if a_.shape != b_.shape or not onp.allclose(a_, b_, rtol=1e-12, atol=1e-12):
+                    fails.append("%s: %s fails" % (name, cn))
+            ip = vs.inner_prod(x, y)
+            n += 1
+            if abs(ip - float(onp.sum(onp.real(onp.conj(flat(x)) * flat(y))))) > 1e-9 * max(1.0, abs(ip)):
+                fails.append("%s: inner_prod is not the leaf-wise real inner product" % name)
+            import autograd
+            import autograd.numpy as anp
+
+            g = autograd.grad(lambda t: anp.sum(anp.real(t[0] * t[0])) + anp.sum(anp.real(t[-1])))(x)
+            n += 1
+            if _type_tree(g) != tt:
+                fails.append("%s: grad w.r.t. a %s value returns a %s" % (name, name, type(g).__name__))
+        except Exception as e:
+            fails.append("%s: raised %s" % (name, exc_sig(e)))
+    return n, fails
+
+
 def vspace_pairs_check():
     """vspace(a) == vspace(b) iff same structure / shape / dtype-kind; mut_add(None, x) shares no memory with x.
     Concrete (float64) part of C13: these clauses are about dtypes and memory, which symbolic arrays cannot show."""
@@ -2786,6 +2933,15 @@ def zero_cases(tier):
     c.append(("zeros_like / ones_like", lambda np, x: np.zeros_like(x) + np.ones_like(x), R(2)))
     c.append(("only the constant border of a padded array is read", lambda np, x: np.pad(x, 1, "constant", constant_values=7.0)[onp.array([0, -1])] * 3.0, R(2)))
     c.append(("full_like / linspace endpoints built from shapes only", lambda np, x: np.sum(np.full(np.shape(x), 2.5)) + np.sum(np.linspace(0.0, 1.0, np.size(x))), R(3)))
+    # constant because an intermediate result is EMPTY (the backward pass still runs the rules, on empty cotangents)
+    c.append(("sum of diff(x, n=2) of a length-2 vector (empty)", lambda np, x: np.sum(np.diff(x, n=2)) + 0.0, R(2)))
+    c.append(("sum of diff(x, n=3) of a length-3 vector (empty)", lambda np, x: np.sum(np.diff(x, n=3)) + 0.0, R(3)))
+    c.append(("sum of diff(x, n=4) of a length-2 vector (n > length)", lambda np, x: np.sum(np.diff(x, n=4)) + 0.0, R(2)))
+    c.append(("sum of diff(x, n=2, axis=0) of a (2,3) array (empty)", lambda np, x: np.sum(np.diff(x, n=2, axis=0)) + 0.0, R(2, 3)))
+    c.append(("sum of diff(x, n=1, axis=1) of a (2,1) array (empty)", lambda np, x: np.sum(np.diff(x, axis=1)) + 0.0, R(2, 1)))
+    c.append(("sum / prod of an empty slice", lambda np, x: np.sum(x[2:2] * 3.0) + np.prod(x[5:]) + np.sum(x[:, :0] if np.ndim(x) > 1 else x[:0]), R(3)))
+    c.append(("concatenate of empty pieces only", lambda np, x: np.sum(np.concatenate([x[:0], x[3:]])) + 1.0, R(3)))
+    c.append(("triu above the last diagonal / diag outside the matrix", lambda np, x: np.sum(np.triu(x, 5)) + np.sum(np.diag(x, 4)) + 0.0, R(2, 3)))
     # an inner derivative whose value depends on the OUTER argument only through two-argument non-differentiable functions
     # (operands of different nesting levels in one call)
     def _inner(np, body, at):
